@@ -63,7 +63,7 @@ CHECKS = {
          'exhaustive enumeration of Writer call sequences over an edge alphabet x width x version x preset, read back and compared with a format model',
          'All single-segment call sequences (10 starts x 11 data lists x 6 data-range kinds x 9 lengths around the dense/lazy '
          'threshold), all two-segment sequences over a collision alphabet (adjacent / overlapping / same / before / far; shared, '
-         'partially overlapping and out-of-pool data ranges) and three-segment sequences, at w=8/16/32/64 and versions 0-3 (lzma '
+         'partially overlapping and out-of-pool data ranges) and three-segment sequences (incl. non-ascending orders: a high first segment, a lower or far second one, a third placed relative to the FIRST), at w=8/16/32/64 and versions 0-3 (lzma '
          'presets 0/6/9): accepted => the Reader loads exactly the denoted image (every data word, zero tails probed at the '
          'threshold edges, neighbours invalid) and all versions give the same image; unrepresentable => FlipJumpWriteFjmException, '
          'never a raw exception, a refused file or a differently loaded one; a rejected call leaves no trace (the sequence continues after it); a call the format can represent is never accepted by one version and refused by another in the same writer state; data-less segments at every position. Assembled stl programs are compared across versions and '
@@ -74,7 +74,7 @@ CHECKS = {
          'crash-point / corruption enumeration: every prefix, every header/table field substitution, payload byte substitutions, appended bytes, all short strings',
          'Corpus = files produced by the real Writer/assembler for every width x version (single op, multi-segment with lazy tail, a reserve-only segment between segments with data, '
          'unreferenced data, shared data, empty data, assembled hello-world, incompressible 140-190 KB v3 payloads, presets 0/9). '
-         'Every strict prefix (every byte for small files), every single-field substitution over an edge alphabet, single-byte payload '
+         'Every strict prefix (every byte for small files), every single-field substitution over an edge alphabet, every two-field damage (+-1, +-2, bit 0) within one segment-table entry, single-byte payload '
          'substitutions, appended bytes (1 byte .. 3x64 KiB), recompressed v3 payloads of other lengths and all strings of length <= 2 are loaded: only an image or '
          'FlipJumpReadFjmException may result, within 10 s and a size-related allocation budget; a loaded prefix must equal the '
          'original image; a loaded file must be consistent by the format model and decode to its image.',
@@ -82,8 +82,8 @@ CHECKS = {
          'DESIGN.md section 3 C10'),
  'C02': ('exploration',
          'exhaustive enumeration of primitive-statement sequences x width x version vs a denotational assembler model with a behavioural wflip chain walker',
-         'All sequences of up to 3 statements over 36 shapes (ops over literals, backward/forward labels, $, constants, label+-k*w, jump words and return addresses that do not fit, negative wflip values, unary-minus precedence; '
-         'seven wflip forms forcing shared / unshared chains; pad 1/2/4; seven segment placements (incl. one that leaves room for exactly two ops below 2^w); four reserves), depth 4 over a '
+         'All sequences of up to 3 statements over 39 shapes (ops over literals, backward/forward labels, $, constants, label+-k*w, jump words and return addresses that do not fit, negative wflip values, unary-minus precedence; '
+         'ten wflip forms forcing shared / unshared chains, three-operand wflips with $ in exactly one operand; pad 1/2/4; seven segment placements (incl. one that leaves room for exactly two ops below 2^w); four reserves), depth 4 over a '
          '12-shape core and depth 5 over a 6-shape core (all of depth 4 in thorough), at w=8/16/32/64 and fjm versions: if the '
          'layout is possible the program must assemble and every statement word, label, reserved range and segment must match '
          'the two-pass denotation, and every wflip chain is executed out of the image (flips exactly the set bits, once each, '
@@ -107,7 +107,7 @@ CHECKS = {
          '16 skeletons (param vs caller label, @ local vs argument, nested argument capture, rep iterator vs names, nested rep, '
          'caller label spelled like an iterator two levels down, arity overloading, < globals and > externs, namespaces with '
          '.rel and ..rel names, $, a local passed down, a label declared through a parameter, rep counts 0/1/3, three call '
-         'levels with equal names, iterator spelled like its own macro parameter, relative names climbing to the root, a rep that does not use its iterator, guarded and mutual recursion, an expansion that emits nothing, parameters in pad / wflip statements, a label declared by several expansions) and call chains of 45..898 macros; warning-free skeletons are also assembled with warnings as errors x every assignment of the pool {a,b,i} to '
+         'levels with equal names, iterator spelled like its own macro parameter, relative names climbing to the root, a rep that does not use its iterator, guarded and mutual recursion, an expansion that emits nothing, parameters in pad / wflip statements, a label declared by several expansions, a rep of count 0 naming an undefined macro / arity) and call chains of 45..898 macros (plain, through rep(1), with zero-count reps at the bottom); warning-free skeletons are also assembled with warnings as errors x every assignment of the pool {a,b,i} to '
          'the name slots (about 2 800 well-formed programs, 2 660 with a collision) x w x every 2-way file split: the image '
          'must equal the image of the program inlined by R4 on the AST; every worker process first assembles a program defining '
          'a, b, i as constants and then assembles every program next to the stl as well (no capture across assemblies).',
@@ -142,7 +142,7 @@ CHECKS = {
          'every vector length 3..20 (thorough ..40, 64, 130) over a boundary alphabet, w=64/32(/16). Every transition checks the '
          'destination value against the doc-comment formula, the documented exit, and that NO other word of the whole memory image '
          'changed (no stale carry / table state); every distinct scratch residue a block leaves is re-explored against every '
-         'operand tuple (closure), which decides arbitrary compositions; mixed block sequences are compared with the composed model.',
+         'operand tuple (closure), which decides arbitrary compositions; mixed block sequences are compared with the composed model. Table placement: the six truth tables allocated one by one (hex.tables.init_shared + hex.<t>.init) in every rotation of the library order, 0/256(/512/768) ops after a 1024-op boundary, all forms at n=2.',
          'Trusts the transcription R6 (fjv/stlspec.py). Words 0..3 (no-flip sink, dummy variable at address 0, IO cells) are exempt from the frame. Scratch-heavy blocks (mul, div) hit the 24-residue cap (reported).',
          'DESIGN.md section 3 C04/C05'),
  'C05': ('model_checking',
@@ -177,10 +177,10 @@ CHECKS = {
          'DESIGN.md section 3 C09'),
  'C11': ('exploration',
          'exhaustive enumeration of _fjcore.Memory API call sequences over an adversarial alphabet on an ASan+UBSan build of the working-tree C source, plus sanitizer runs of the engine drivers',
-         'All call sequences of depth <= 2 over a 128-operation alphabet (add_segment at page / window / 2^40 / 2^58 / 2^63 / 2^64 edges '
+         'All call sequences of depth <= 2 over a 149-operation alphabet (add_segment at page / window / 2^40 / 2^58 / 2^63 / 2^64 edges '
          'with zero, huge, exactly-to-2^64 and overflowing lengths; set_words inside / straddling / wrapping / with bad items; '
          'get_word / set_word at the same addresses; run with ring lengths 0/1/3/-1/2^62, start_ip 0/1/w/2^64-1 and device callbacks '
-         'that poke the memory, add segments, re-init the object (also with rejected arguments) or run recursively; __init__ on a live object, accepted and rejected; 5000 descending '
+         'that poke the memory, add segments, re-init the object (also with rejected arguments) or run recursively; set_words with a sequence whose item access runs / re-initialises / extends the memory being loaded (F23); __init__ on a live object, accepted and rejected; 5000 descending '
          'segments) for 7 constructor configurations (32 thorough), depth 3 as (program load, run, anything) and (program load, rejected re-init, anything), depth 4 as (load, run, late add_segment, accessor / run); an ownership probe compares the reference counts of every argument object before / after ~30 call shapes (depth 4 thorough), plus '
          'slices of the C01 / C07 / C19 drivers and .fjm files with adversarial segment tables - all on a clang '
          '-fsanitize=address,undefined build loaded with LD_PRELOAD: no sanitizer report, normal worker exit.',
@@ -190,8 +190,8 @@ CHECKS = {
          'explicit-state search over assemble-call histories in one process (forked children of a never-assembled parent); probe bytes vs a fresh interpreter process',
          'Every history of depth <= 2 over 27 assemble actions (thorough: also depth 3 over a 9-action core) (stl programs at two widths, no-stl, werror, a parse failure '
          'inside nested namespaces, a lexing error, an unknown macro after the cache was filled, recursion overflow with depth 5, depths '
-         '2000 and 4000, programs defining top-level constants, programs behind a 1- or 2-file stl prefix with one to three user files, a 60 000-label program, a warning-raising program at a fixed path with and without warnings-as-errors, a rep-heavy program, the stl under other short names, another user short name, another directory) followed by fifteen '
-         'probe assemblies (different widths, versions, werror, programs using the constants\' names as labels, expressions nested 400 / 700 deep): the .fjm and .fjd bytes of every probe must equal those of a brand-new '
+         '2000 and 4000, programs defining top-level constants, programs behind a 1- or 2-file stl prefix with one to three user files, a 60 000-label program, a warning-raising program at a fixed path with and without warnings-as-errors, a rep-heavy program, the stl under other short names, another user short name, another directory) followed by seventeen '
+         'probe assemblies (different widths, versions, werror, programs using the constants\' names as labels, expressions nested 400 / 700 deep, a 600-term expression inside a macro with the default and a raised depth (F24)), rotated so that every probe directly follows every last action: the .fjm and .fjd bytes of every probe must equal those of a brand-new '
          'interpreter process (two reference processes with different hash seeds and directories must agree as well).',
          'Each history runs in a forked child of a parent that imported flipjump but never assembled. The process-global state key is reported, not used to merge histories.',
          'DESIGN.md section 3 C13'),
